@@ -332,7 +332,11 @@ def decide(res, cfg):
     """Compare with the committed baseline / known findings, write replay files, return exit code."""
     pid = res.pid
     baseline = load_json(BASELINE_FILE, {})
-    base = set(baseline.get(pid, []))
+    entry = baseline.get(pid, {})
+    if isinstance(entry, list):
+        entry = {"quick": entry}
+    base_all = set(entry.get("quick", [])) | set(entry.get("thorough", []))
+    base = set(entry.get(res.tier, entry.get("quick", [])))
     known = [k for k in load_json(KNOWN_FILE, []) if k.get("property") == pid]
     now = {o["id"]: o for o in res.obligations}
     # lost obligations
@@ -353,6 +357,17 @@ def decide(res, cfg):
         res.undecided.append("obligations in the committed baseline were not generated on this tree (lost anchor?): " + ", ".join(lost[:8]))
     rc = 0
     nviol = 0
+    # a Verus failure carries no counterexample; if a Kani harness or native search covering the same function failed on this run,
+    # its replayed counterexample is attached to the Verus obligation as the failing input
+    donors = [o for o in res.obligations if o["status"] == "failed" and (o.get("replay") or {}).get("found_input")]
+    for o in res.obligations:
+        if o["status"] == "failed" and o["engine"] == "verus" and not o.get("replay"):
+            fn = o["id"].replace("fast:", "").split("#")[0].split("@")[-1]
+            for dn in donors:
+                if fn in (dn.get("covers") or []):
+                    rp = dict(dn["replay"]); rp["borrowed_from"] = dn["id"]
+                    o["replay"] = rp
+                    break
     for o in res.obligations:
         if o["status"] == "left-fragment":
             continue
@@ -366,7 +381,7 @@ def decide(res, cfg):
             o["status"] = "known-finding"
             continue
         replay = o.get("replay")
-        if o["id"] in base or (replay and replay.get("found_input")):
+        if o["id"] in base_all or (replay and replay.get("found_input")):
             nviol += 1
             path = write_replay(res, o)
             suffix = "" if (replay and replay.get("found_input")) else " no-failing-input-found"
@@ -494,7 +509,11 @@ def check(pid, tier, seed, update_baseline=False):
             json.dump(known, open(FNHASH_FILE, "w"), indent=0, sort_keys=True)
         if update_baseline:
             baseline = load_json(BASELINE_FILE, {})
-            baseline[pid] = sorted(o["id"] for o in res.obligations if o["status"] in ("discharged", "bounded"))
+            entry = baseline.get(pid, {})
+            if isinstance(entry, list):
+                entry = {"quick": entry}
+            entry[tier] = sorted(o["id"] for o in res.obligations if o["status"] in ("discharged", "bounded", "known-finding"))
+            baseline[pid] = entry
             json.dump(baseline, open(BASELINE_FILE, "w"), indent=0, sort_keys=True)
         if tier == "thorough" and not os.environ.get("VERIF_WORK_TAG"):
             try:
